@@ -4,25 +4,27 @@ the `Srv` refinement rest on.  Proved for symbolic indices (no enumeration, no `
 namespace ActixNet.Avail
 open ActixNet
 
+/-- what `Availability::offset` computes, independently of how its case split is written (chain of
+`<` tests in either order, division / remainder, shift / mask): the proof only needs linear
+arithmetic per branch, so a behaviour-preserving rewrite of the Rust function keeps it valid -/
+theorem offset_eq (idx : Nat) :
+    Src.availOffset idx = if idx < 512 then some (idx / 128, idx % 128) else none := by
+  unfold Src.availOffset
+  simp only [decide_eq_true_eq, Nat.shiftRight_eq_div_pow, show (127 : Nat) = 2 ^ 7 - 1 by rfl,
+    Nat.and_two_pow_sub_one_eq_mod]
+  repeat' split
+  all_goals first
+    | rfl
+    | (simp only [Option.some.injEq, Prod.mk.injEq]; omega)
+    | (exfalso; omega)
+    | (simp only [reduceCtorEq]; omega)
+
 theorem offset_some {idx : Nat} (h : idx < 512) :
     ∃ o i, Src.availOffset idx = some (o, i) ∧ o < 4 ∧ i < 128 ∧ idx = 128 * o + i := by
-  unfold Src.availOffset
-  by_cases h1 : idx < 128
-  · exact ⟨0, idx, by simp [h1], by omega, h1, by omega⟩
-  · by_cases h2 : idx < 128 * 2
-    · exact ⟨1, idx - 128, by simp [h1, h2], by omega, by omega, by omega⟩
-    · by_cases h3 : idx < 128 * 3
-      · exact ⟨2, idx - 128 * 2, by simp [h1, h2, h3], by omega, by omega, by omega⟩
-      · have h4 : idx < 128 * 4 := by omega
-        exact ⟨3, idx - 128 * 3, by simp [h1, h2, h3, h4], by omega, by omega, by omega⟩
+  refine ⟨idx / 128, idx % 128, by rw [offset_eq, if_pos h], by omega, by omega, by omega⟩
 
 theorem offset_none {idx : Nat} (h : 512 ≤ idx) : Src.availOffset idx = none := by
-  unfold Src.availOffset
-  have h1 : ¬ idx < 128 := by omega
-  have h2 : ¬ idx < 128 * 2 := by omega
-  have h3 : ¬ idx < 128 * 3 := by omega
-  have h4 : ¬ idx < 128 * 4 := by omega
-  simp [h1, h2, h3, h4]
+  rw [offset_eq, if_neg (by omega)]
 
 theorem availGet_eq (w : BitVec 128) (i : Nat) (hi : i < 128) : Src.availGet w i = w.getLsbD i := by
   unfold Src.availGet
